@@ -57,6 +57,17 @@ type Session struct {
 	*Server
 	Statements StatementCache
 	Portals    PortalCache
+	// discard is set once an extended query message has failed. All messages
+	// up to the next Sync are discarded as described by the protocol.
+	discard bool
+}
+
+// extendedError reports the given error to the client as response to an
+// extended query message. No ready for query is written, the messages up to
+// the next Sync are discarded instead.
+func (srv *Session) extendedError(writer *buffer.Writer, err error) error {
+	srv.discard = true
+	return writeErrorResponse(writer, err)
 }
 
 // consumeCommands consumes incoming commands sent over the Postgres wire connection.
@@ -87,12 +98,7 @@ func (srv *Session) consumeSingleCommand(ctx context.Context, reader *buffer.Rea
 
 	// NOTE: we could recover from this scenario
 	if errors.Is(err, buffer.ErrMessageSizeExceeded) {
-		err = handleMessageSizeExceeded(reader, writer, err)
-		if err != nil {
-			return err
-		}
-
-		return nil
+		return srv.handleMessageSizeExceeded(t, reader, writer, err)
 	}
 
 	if err != nil {
@@ -126,7 +132,7 @@ func (srv *Session) consumeSingleCommand(ctx context.Context, reader *buffer.Rea
 // type. A fatal error is returned when an unexpected error is returned while
 // consuming the expected message size or when attempting to write the error
 // message back to the client.
-func handleMessageSizeExceeded(reader *buffer.Reader, writer *buffer.Writer, exceeded error) (err error) {
+func (srv *Session) handleMessageSizeExceeded(t types.ClientMessage, reader *buffer.Reader, writer *buffer.Writer, exceeded error) (err error) {
 	unwrapped, has := buffer.UnwrapMessageSizeExceeded(exceeded)
 	if !has {
 		return exceeded
@@ -135,6 +141,21 @@ func handleMessageSizeExceeded(reader *buffer.Reader, writer *buffer.Writer, exc
 	err = reader.Slurp(unwrapped.Size)
 	if err != nil {
 		return err
+	}
+
+	// NOTE: the message is discarded like any other message whenever a previous
+	// extended query message has failed.
+	if srv.discard && t != types.ClientSync {
+		return nil
+	}
+
+	switch t {
+	case types.ClientParse, types.ClientBind, types.ClientDescribe, types.ClientExecute, types.ClientClose, types.ClientFlush:
+		return srv.extendedError(writer, exceeded)
+	case types.ClientSync:
+		// NOTE: a sync message always ends the command cycle to ensure that
+		// there is one and only one ReadyForQuery sent for each Sync.
+		srv.discard = false
 	}
 
 	return ErrorCode(writer, exceeded)
@@ -147,6 +168,13 @@ func handleMessageSizeExceeded(reader *buffer.Reader, writer *buffer.Writer, exc
 func (srv *Session) handleCommand(ctx context.Context, conn net.Conn, t types.ClientMessage, reader *buffer.Reader, writer *buffer.Writer) error {
 	ctx, cancel := context.WithCancel(ctx)
 	defer cancel()
+
+	// NOTE: when an error is detected while processing any extended-query
+	// message, the backend issues ErrorResponse, then reads and discards
+	// messages until a Sync is reached.
+	if srv.discard && t != types.ClientSync && t != types.ClientTerminate {
+		return nil
+	}
 
 	switch t {
 	case types.ClientSimpleQuery:
@@ -194,6 +222,7 @@ func (srv *Session) handleCommand(ctx context.Context, conn net.Conn, t types.Cl
 		// — this ensures that there is one and only one ReadyForQuery sent for
 		// each Sync.)
 		// https://www.postgresql.org/docs/current/protocol-flow.html#PROTOCOL-FLOW-EXT-QUERY
+		srv.discard = false
 		return readyForQuery(writer, types.ServerIdle)
 	case types.ClientBind:
 		return srv.handleBind(ctx, reader, writer)
@@ -292,7 +321,7 @@ func (srv *Session) handleSimpleQuery(ctx context.Context, reader *buffer.Reader
 
 func (srv *Session) handleParse(ctx context.Context, reader *buffer.Reader, writer *buffer.Writer) error {
 	if srv.parse == nil || srv.Statements == nil {
-		return ErrorCode(writer, NewErrUnimplementedMessageType(types.ClientParse))
+		return srv.extendedError(writer, NewErrUnimplementedMessageType(types.ClientParse))
 	}
 
 	name, err := reader.GetString()
@@ -326,14 +355,14 @@ func (srv *Session) handleParse(ctx context.Context, reader *buffer.Reader, writ
 
 	statement, err := singleStatement(srv.parse(ctx, query))
 	if err != nil {
-		return ErrorCode(writer, err)
+		return srv.extendedError(writer, err)
 	}
 
 	srv.logger.Debug("incoming extended query", slog.String("query", query), slog.String("name", name), slog.Int("parameters", len(statement.parameters)))
 
 	err = srv.Statements.Set(ctx, name, statement)
 	if err != nil {
-		return ErrorCode(writer, err)
+		return srv.extendedError(writer, err)
 	}
 
 	writer.Start(types.ServerParseComplete)
@@ -361,7 +390,7 @@ func (srv *Session) handleDescribe(ctx context.Context, reader *buffer.Reader, w
 		}
 
 		if statement == nil {
-			return ErrorCode(writer, errors.New("unknown statement"))
+			return srv.extendedError(writer, errors.New("unknown statement"))
 		}
 
 		err = srv.writeParameterDescription(writer, statement.parameters)
@@ -378,13 +407,13 @@ func (srv *Session) handleDescribe(ctx context.Context, reader *buffer.Reader, w
 		}
 
 		if portal == nil {
-			return ErrorCode(writer, errors.New("unknown portal"))
+			return srv.extendedError(writer, errors.New("unknown portal"))
 		}
 
 		return srv.writeColumnDescription(ctx, writer, portal.formats, portal.statement.columns)
 	}
 
-	return ErrorCode(writer, fmt.Errorf("unknown describe command: %q", d[0]))
+	return srv.extendedError(writer, fmt.Errorf("unknown describe command: %q", d[0]))
 }
 
 // https://www.postgresql.org/docs/15/protocol-message-formats.html
@@ -547,7 +576,7 @@ func (srv *Session) readColumnTypes(reader *buffer.Reader) ([]FormatCode, error)
 
 func (srv *Session) handleExecute(ctx context.Context, reader *buffer.Reader, writer *buffer.Writer) error {
 	if srv.Statements == nil {
-		return ErrorCode(writer, NewErrUnimplementedMessageType(types.ClientExecute))
+		return srv.extendedError(writer, NewErrUnimplementedMessageType(types.ClientExecute))
 	}
 
 	name, err := reader.GetString()
@@ -567,7 +596,7 @@ func (srv *Session) handleExecute(ctx context.Context, reader *buffer.Reader, wr
 	srv.logger.Debug("executing", slog.String("name", name), slog.Uint64("limit", uint64(limit)))
 	err = srv.Portals.Execute(ctx, name, reader, writer)
 	if err != nil {
-		return ErrorCode(writer, err)
+		return srv.extendedError(writer, err)
 	}
 
 	return nil
